@@ -112,7 +112,10 @@ func GetPosition(ast MalType) *Position {
 func NewLispError(err MalType, ast MalType) LispError {
 	switch err := err.(type) {
 	case LispError:
-		err.cursor = GetPosition(ast)
+		// keep the position of the innermost form that failed
+		if err.cursor == nil {
+			err.cursor = GetPosition(ast)
+		}
 		return err
 	default:
 		return LispError{
